@@ -21,7 +21,7 @@ func VerifH_C16_api_failing_call() {
 
 	// one failing call
 	var ferr error
-	switch vrt.Choice(9) {
+	switch vrt.Choice(12) {
 	case 0:
 		_, ferr = fw.CreateDataset("/nope/d", Int32, []uint64{1}) // missing parent
 	case 1:
@@ -40,6 +40,19 @@ func VerifH_C16_api_failing_call() {
 		ferr = a.DeleteAttribute("absent")
 	case 8:
 		ferr = a.Resize([]uint64{5}) // not resizable
+	case 9:
+		_, ferr = fw.CreateGroup("/g") // duplicate group: the existing /g must stay usable
+	case 10:
+		_, ferr = fw.CreateDataset("/a", Int32, []uint64{1}) // duplicate dataset name
+	case 11:
+		// /a's header is followed by /g's structures: growing it in place must be refused, twice in a row
+		ferr = a.WriteAttribute("big", []int32{1, 2})
+		if ferr != nil {
+			ferr2 := a.WriteAttribute("big", []int32{1, 2})
+			vrt.Assert(ferr2 != nil, "refused-call-refused-again")
+			ferr3 := a.WriteAttribute("k2", int32(1))
+			vrt.Assert(ferr3 != nil, "refused-call-refused-again")
+		}
 	}
 	vrt.Assert(ferr != nil, "invalid-call-returns-error")
 
